@@ -76,3 +76,14 @@ def ssum(ex, st, comps, minimize, n):
     """ssum(c, m, n) = sum over k < n of (-c[k] if m[k] else c[k]): the property's default multi-objective aggregate"""
     f = _ssum_fn(ex)
     return V(REAL, f(ex.larr(st, comps), ex.larr(st, minimize), ops.to_int_term(n)))
+
+
+@specfunc("budget_done")
+def budget_done(ex, st, budget, tracker):
+    """abstract 'this budget is exhausted' predicate: an uninterpreted function of the budget, the evaluation
+    counter and the tracker's best individual (what concrete budgets read)"""
+    f = z3.Function("budget_done", I, I, I, z3.BoolSort())
+    ev = ex.fget(st, tracker, "evaluator", ex.field_kind(tracker.kind.target.cls, "evaluator"))
+    cnt = ex.fget(st, ev, "count", INT)
+    best = ex.fget(st, tracker, "best_individual", ex.field_kind(tracker.kind.target.cls, "best_individual"))
+    return V(BOOL, f(budget.term, cnt.term, best.term))
